@@ -140,7 +140,11 @@ def c16_case(tdir, d, k, b):
     big = os.path.join(d, "out_%s.%s" % (tag, "bw" if kind == "bw" else "bb"))
     back = os.path.join(d, "back_%s.txt" % tag)
     ucsc = cfg["style"] == "ucsc"
+    stdin_data = None
     a1 = [inp, sizes, big, "-t", str(cfg["threads"]), "-p", cfg["parallel"]]
+    if cfg.get("stdin"):
+        stdin_data = open(inp, "rb").read()
+        a1[0] = ["-", "stdin", "/dev/stdin"][k % 3]
     if cfg["single"]:
         a1.append("--single-pass")
     if cfg["inmem"]:
@@ -151,7 +155,7 @@ def c16_case(tdir, d, k, b):
         a1.append(("-blockSize=%d" if ucsc else "--block-size=%d") % cfg["bs"])
     if cfg["zooms"]:
         a1.append("-zooms=2,8" if ucsc else "--zooms=2,8")
-    rc1, _, err1 = run_tool(tdir, cfg["invoke"], "bedgraphtobigwig" if kind == "bw" else "bedtobigbed", a1)
+    rc1, _, err1 = run_tool(tdir, cfg["invoke"], "bedgraphtobigwig" if kind == "bw" else "bedtobigbed", a1, stdin=stdin_data)
     a2 = [big, back, "-t", str(cfg["bthreads"])]
     if cfg["binmem"]:
         a2.append("--inmemory")
